@@ -12,18 +12,36 @@ import (
 type Expr interface{ String() string }
 
 type (
-	EIdent  struct{ Name string }
-	EInt    struct{ Val string }
-	EStr    struct{ Val string }
-	EBin    struct{ Op string; L, R Expr }
-	EUn     struct{ Op string; X Expr }
-	ESel    struct{ X Expr; Name string; Ghost bool }
-	EIndex  struct{ X, I Expr }
-	ESlice  struct{ X, Lo, Hi Expr }
-	ECall   struct{ Fn Expr; Args []Expr }
-	EQuant  struct{ Forall bool; Vars []QVar; Body Expr; Pats []Expr }
-	EOld    struct{ X Expr }
-	ECond   struct{ C, A, B Expr }
+	EIdent struct{ Name string }
+	EInt   struct{ Val string }
+	EStr   struct{ Val string }
+	EBin   struct {
+		Op   string
+		L, R Expr
+	}
+	EUn struct {
+		Op string
+		X  Expr
+	}
+	ESel struct {
+		X     Expr
+		Name  string
+		Ghost bool
+	}
+	EIndex struct{ X, I Expr }
+	ESlice struct{ X, Lo, Hi Expr }
+	ECall  struct {
+		Fn   Expr
+		Args []Expr
+	}
+	EQuant struct {
+		Forall bool
+		Vars   []QVar
+		Body   Expr
+		Pats   []Expr
+	}
+	EOld     struct{ X Expr }
+	ECond    struct{ C, A, B Expr }
 	ETypeLit struct{ T string } // type literal used as argument: type(*message)
 )
 
@@ -70,8 +88,10 @@ func (e *EQuant) String() string {
 	}
 	return "(" + q + " " + strings.Join(vs, ", ") + " :: " + e.Body.String() + ")"
 }
-func (e *EOld) String() string     { return "old(" + e.X.String() + ")" }
-func (e *ECond) String() string    { return "(" + e.C.String() + " ? " + e.A.String() + " : " + e.B.String() + ")" }
+func (e *EOld) String() string { return "old(" + e.X.String() + ")" }
+func (e *ECond) String() string {
+	return "(" + e.C.String() + " ? " + e.A.String() + " : " + e.B.String() + ")"
+}
 func (e *ETypeLit) String() string { return "type(" + e.T + ")" }
 
 type tok struct {
@@ -183,10 +203,10 @@ func ParseExpr(src string) (e Expr, err error) {
 type parseErr string
 
 func (p *parser) fail(f string, a ...any) { panic(parseErr(fmt.Sprintf(f, a...))) }
-func (p *parser) peek() tok            { return p.toks[p.p] }
-func (p *parser) next() tok            { t := p.toks[p.p]; p.p++; return t }
-func (p *parser) isOp(s string) bool     { t := p.peek(); return t.kind == "op" && t.text == s }
-func (p *parser) isID(s string) bool     { t := p.peek(); return t.kind == "id" && t.text == s }
+func (p *parser) peek() tok               { return p.toks[p.p] }
+func (p *parser) next() tok               { t := p.toks[p.p]; p.p++; return t }
+func (p *parser) isOp(s string) bool      { t := p.peek(); return t.kind == "op" && t.text == s }
+func (p *parser) isID(s string) bool      { t := p.peek(); return t.kind == "id" && t.text == s }
 func (p *parser) expect(s string) {
 	if !p.isOp(s) {
 		p.fail("expected %q, got %q", s, p.peek().text)
